@@ -1,4 +1,5 @@
 import RsslVerif.Gen.MacroTables
+import RsslVerif.Model.Lexer
 /-!
 # Model of the macro engine of `preprocess/src/preprocess.rs` (C12)
 
@@ -26,7 +27,10 @@ open RsslVerif.Gen.MacroTables
 
 inductive Tok where
   | id (s : String)
-  /-- `LiteralInt`, kept as its decimal spelling -/
+  /-- an integer literal (`LiteralInt`, `LiteralIntUnsigned32`, ...), kept as its SOURCE SPELLING (`16`, `0x10`, `020`,
+  `16u` are four different tokens here): the real `PreprocessToken` carries its source span, and `##` joins the text
+  under the spans (`unlex`), not a rendering of the value.  The value / kind of a spelling is what the lexer model
+  reads from it (`lexOne`). -/
   | int (s : String)
   /-- any other token, by spelling (`+ - * ; = { }`) -/
   | punct (s : String)
@@ -284,7 +288,18 @@ def Tok.isWord : Tok → Bool
   | .id _ | .int _ => true
   | _ => false
 
+/-- `TokenStream::new(text, ..).read_to_end()` (C10's model of lexer.rs) answers `[token, Endline]`: that token -/
+def lexOne (s : String) : Option RsslVerif.Model.Lexer.Token :=
+  match RsslVerif.Model.Lexer.readToEnd (RsslVerif.Model.Lexer.str s) with
+  | .ok [t, e] => if e.tok = .simple .Endline then some t.tok else none
+  | _ => none
+
+def isIntLiteral : RsslVerif.Model.Lexer.Token → Bool
+  | .litInt _ | .litIntU32 _ | .litIntU64 _ | .litIntS64 _ => true
+  | _ => false
+
 /-- Unlex both operands, join the texts, lex the result in a scratch file, expect exactly one token.
+Numbers are joined by their source spellings (`0x1 ## 0` is `0x10` = 16, `00 ## 7` is `007` = 7, `1u ## 2` is no token).
 Word-like operands give an identifier or a number; a symbol next to a word, or two symbols that do not form a
 longer operator, lex as two tokens (`ConcatFailed`).  The merged token has a location (the scratch file). -/
 def pasteTokens (l r : PTok) : Except Err PTok :=
@@ -296,8 +311,9 @@ def pasteTokens (l r : PTok) : Except Err PTok :=
       if keywords.contains (a ++ b) then .error (.unsupported "paste makes a keyword")
       else .ok ⟨.id (a ++ b), true⟩
     | .int a, .int b =>
-      if a.startsWith "0" then .error (.unsupported "paste makes an octal literal")
-      else if (a ++ b).length > 18 then .error (.unsupported "paste makes a large literal")
+      -- the joined spelling is lexed: a lexer error or another number of tokens is `ConcatFailed`
+      if (lexOne (a ++ b)).isNone then .error .concatFailed
+      else if !(lexOne (a ++ b)).any isIntLiteral then .error (.unsupported "paste of two numbers makes a token that is no integer literal")
       else .ok ⟨.int (a ++ b), true⟩
     | .punct a, .punct b =>
       if punctMerges.contains (a, b) then .ok ⟨.punct (a ++ b), true⟩ else .error .concatFailed
